@@ -261,7 +261,7 @@ pub(crate) async fn run_command_loop(
               ).await;
 
               // If the cleanup logic says we should reconnect (because it was an outbound session), do it.
-              if should_reconnect {
+              if let Some(target_uri) = should_reconnect {
                 let mut state = core_arc.core_state.write();
                 
                 // Check if already reconnected by another part of the system
@@ -287,12 +287,12 @@ pub(crate) async fn run_command_loop(
                 };
                 
                 let max = options.reconnect_ivl_max.unwrap_or(std::time::Duration::from_secs(60));
-                let recon_state = state.reconnect_states.entry(uri.clone()).or_default();
+                let recon_state = state.reconnect_states.entry(target_uri.clone()).or_default();
                 let delay = recon_state.on_connection_failure(base, max);
                 
                 tracing::info!(
                   core_handle = core_handle,
-                  uri = %uri,
+                  uri = %target_uri,
                   attempt = recon_state.current_attempts,
                   next_attempt_in = ?delay,
                   "Reaper: Zombie session cleaned. Scheduled for reconnect."
